@@ -15,6 +15,53 @@ from .core import S, FFloat, RFloat, SymArray, SymBool, SymFloat, SymInt, ZB, fp
 from .explore import BudgetExceeded, Explorer
 
 
+# second-solver cross-check (thorough tier): every XCHECK["every"]-th decided query is dumped as SMT-LIB2 and re-decided by the
+# system z3 (4.8.12) and cvc5 binaries; sat-vs-unsat disagreement is a harness error, unknown/timeouts/errors are tolerated
+XCHECK = {"enabled": False, "every": 5, "n": 0, "stats": {}, "disagreements": [], "dir": None, "timeout_s": 20}
+
+
+def xcheck_reset(enabled, workdir=None):
+    XCHECK.update(enabled=bool(enabled), n=0, stats={}, disagreements=[], dir=workdir)
+
+
+def _xcheck(s, status):
+    import subprocess
+    import tempfile
+    XCHECK["n"] += 1
+    if XCHECK["n"] % XCHECK["every"] != 1 and XCHECK["every"] > 1:
+        return
+    try:
+        text = s.to_smt2()
+    except Exception as e:  # noqa
+        XCHECK["stats"]["dump_failed"] = XCHECK["stats"].get("dump_failed", 0) + 1
+        return
+    fd, path = tempfile.mkstemp(suffix=".smt2", dir=XCHECK["dir"])
+    with os.fdopen(fd, "w") as f:
+        f.write(text)
+    T = XCHECK["timeout_s"]
+    for name, cmd in (("z3-4.8.12", ["/usr/bin/z3", f"-T:{T}", path]), ("cvc5", ["cvc5", f"--tlimit={T * 1000}", path])):
+        try:
+            p = subprocess.run(cmd, capture_output=True, text=True, timeout=T + 10)
+            out = (p.stdout or "").strip().splitlines()
+            ans = next((l.strip() for l in out if l.strip() in ("sat", "unsat", "unknown")), None)
+            if any("(error" in l for l in out) or ans is None:
+                ans = "error" if ans is None or any("(error" in l for l in out) else ans
+        except Exception:  # noqa
+            ans = "timeout"
+        if ans in ("sat", "unsat"):
+            key = f"{name}:agree" if ans == status else f"{name}:DISAGREE"
+            if ans != status:
+                XCHECK["disagreements"].append(f"{name} says {ans}, z3 {z3.get_version_string()} says {status}: {path}")
+        else:
+            key = f"{name}:{ans}"
+        XCHECK["stats"][key] = XCHECK["stats"].get(key, 0) + 1
+    if not XCHECK["disagreements"]:
+        try:
+            os.unlink(path)
+        except OSError:
+            pass
+
+
 def check(constraints, timeout_ms=20000):
     """-> (status 'sat'|'unsat'|'unknown', model|None, seconds)"""
     s = z3.Solver()
@@ -28,6 +75,8 @@ def check(constraints, timeout_ms=20000):
     t = time.time()
     r = s.check()
     dt = time.time() - t
+    if XCHECK["enabled"] and r in (z3.sat, z3.unsat):
+        _xcheck(s, "sat" if r == z3.sat else "unsat")
     if r == z3.sat:
         return "sat", s.model(), dt
     if r == z3.unsat:
